@@ -19,6 +19,8 @@ ASSUMPTIONS = [
     "restart of the receive loop (Actor restart after an unhandled exception in _run, or stop() followed by start()): the "
     "distribution tasks are plain asyncio tasks the service does not own, so they are not cancelled and their done-callbacks keep "
     "running; the channel receiver persists; requests sent while the loop is down are consumed after the restart, in order",
+    "a component group is the SET of component ids: every request carries its own set/frozenset object, built with ascending or "
+    "descending insertion order over ids that collide in a small hash table (equal sets, different iteration order)",
     "requests are told apart by object identity (the harness maps id(request) to a sequence number); their VALUES may be equal",
     "cancellation of a distribution task is outside the property's quantifier (task.result() would raise CancelledError "
     "out of the completion callback)",
